@@ -6,7 +6,7 @@ from pyvc.values import BoundMethod, HObj, Opaque, Ref
 
 from .a_common import F
 from .a_submit import CARGS, MG, TF
-from .a_tasks import T, TASK, TC, calls, exts, flat, index_of, trivial_loop
+from .a_tasks import T, TASK, TC, calls, exts, flat, index_of, trivial_loop, only_propagates
 
 B = z3.BoolVal
 TM = f'{MG}:TransferManager'
@@ -61,7 +61,7 @@ def register(R):
             HObj('dict', items={'bandwidth_limiter': Opaque('the_bandwidth_limiter', kind='bandwidth_limiter')}))))]},
         returns=ExtT('transfer_future'), raise_when={'Exception': lambda c: None},
         inline_callees=[f'{TM}._get_future_with_components'],
-        checks=st_checks, raises={'Exception': lambda c: {}}, loops={0: trivial_loop()},
+        checks=st_checks, raises={'Exception': only_propagates}, loops={0: trivial_loop()},
     )
     # the invariants of the state shared between transfers also serve the isolation clause
     for t in SHARED_STATE_ROOTS:
